@@ -316,6 +316,154 @@ def cmp_hist13(steps, r, tol, scale):
     return None
 
 
+
+# ====================================================================== Krige objects between calls (GSV.Model.LatLon.ksStep)
+def krige_hist_case13(rng, gs, add):
+    """One Krige object on a live lat-lon / lat-lon + temporal / metric temporal model: constructor, then in-place setters, model
+    replacement (another geo_scale with converted lengths, or other parameters), set_condition with / without positions, calls with /
+    without targets.  Public observables only: the matrix handed to the (callable) pseudo-inverse at every set_condition, the
+    right-hand sides handed to the kriging kernel at every call; compared with cov(distances) of GSV.Model.LatLon.ksRun
+    (cov = the covariance function of a copy of the model taken at that moment)."""
+    import copy
+    import gstools.krige.base as KB
+    k = rng.rand()
+    latlon, temporal = (True, True) if k < 0.4 else (True, False) if k < 0.65 else (False, True)
+    dim = 3 + int(temporal) if latlon else int(rng.randint(1, 4)) + 1
+    Model = [gs.Exponential, gs.Gaussian, gs.Matern, gs.Spherical][int(rng.randint(4))]
+    R = gen_radius(rng) if latlon else 1.0
+    var = float(np.round(rng.uniform(0.5, 3.0), 2))
+    nug = float(rng.choice([0.0, 0.0, 0.2]))
+
+    def params(R_):
+        ls = float(np.round(rng.uniform(0.3, 1.5), 3)) * (R_ if latlon else 2.0)
+        an = [float(np.round(np.exp(rng.uniform(-1.2, 1.2)), 3)) for _ in range(dim - 1)]
+        if latlon and temporal:
+            an[-1] = float(np.round(np.exp(rng.uniform(-1.2, 1.2)) * 10.0 / R_, 6))
+        ag = [float(np.round(rng.uniform(-3, 3), 3)) for _ in range(noa(dim))]
+        return ls, an, ag
+
+    def make(ls, an, ag, R_):
+        kw = dict(latlon=latlon, temporal=temporal, len_scale=ls, anis=an, angles=ag, var=var, nugget=nug)
+        if latlon:
+            kw["geo_scale"] = R_
+        else:
+            kw["dim"] = dim
+        return Model(**kw)
+
+    def pts(n):
+        x = np.zeros((4, n))
+        if latlon:
+            x[0], x[1] = gen_latlon(rng, n)
+            x[2] = np.round(rng.uniform(-10, 10, n), 3)
+        else:
+            x[:dim] = np.round(rng.uniform(-5, 5, (dim, n)), 3)
+        return x
+    fd = (2 + int(temporal)) if latlon else dim
+    ls, an, ag = params(R)
+    m = make(ls, an, ag, R)
+    cap = {}
+    orig_c = KB.calc_field_krige_and_variance_c
+
+    def spy_k(mat_, vecs, cond, num_threads=None):
+        cap["vecs"] = np.array(vecs, copy=True)
+        return orig_c(mat_, vecs, cond, num_threads)
+
+    def pinv_k(mat_):
+        cap["mat"] = np.array(mat_, copy=True)
+        return np.linalg.pinv(mat_)
+    lops, recs, trace = [], [], []
+    KB.calc_field_krige_and_variance_c = spy_k
+    try:
+        n = int(rng.randint(1, 6))
+        cpos, cval = pts(n), rng.randn(n)
+        obj = [gs.krige.Simple, gs.krige.Ordinary][int(rng.randint(2))](m, cpos[:fd], cval, pseudo_inv_type=pinv_k)
+        n0, cpos0 = n, cpos.copy()
+        trace.append(["Krige(model, cond_pos)", cpos[:fd].tolist()])
+
+        def rec_cond():
+            nn = obj.cond_no
+            recs.append(("cond", cap["mat"][:nn, :nn].copy(), copy.deepcopy(obj.model), float(obj.cond_err) if np.ndim(obj.cond_err) == 0 else 0.0))
+        rec_cond()
+        for _ in range(int(rng.randint(2, 9))):
+            r = rng.rand()
+            if r < 0.3:
+                (kk, v), = gen_history13(rng, latlon, temporal, dim, nops=1)
+                if kk == "dim" and not latlon:
+                    v = dim                                    # the stored tuples keep their number of rows
+                st = apply_op13(obj.model, (kk, v))
+                lops.append(dict(k="dim", d=int(v)) if kk == "dim" else dict(k=kk, v=fbits(np.atleast_1d(np.asarray(v, dtype=float)))))
+                recs.append(("status", st))
+                trace.append([kk, v, st])
+            elif r < 0.45:
+                if latlon and rng.rand() < 0.6:
+                    # the same covariance in another unit
+                    R2 = float(rng.choice([r_ for r_ in RADII if r_ != R] + [float(np.round(rng.uniform(0.1, 1e4), 3))]))
+                    l2 = float(obj.model.len_scale) * R2 / R
+                    a2 = [float(a_) for a_ in obj.model.anis]
+                    if temporal:
+                        a2[-1] = float(obj.model.len_scale) * a2[-1] / l2
+                    g2, R = ag, R2
+                else:
+                    l2, a2, g2 = params(R)
+                obj.model = make(l2, a2, g2, R)
+                lops.append(dict(k="replace", R=f1(R), latlon=latlon, temporal=temporal, dim=dim, len_scale=fbits([l2]), anis=fbits(a2), angles=fbits(g2)))
+                recs.append(("status", "ok"))
+                trace.append(["krige.model = Model(...)", dict(geo_scale=R, len_scale=l2, anis=a2, angles=g2)])
+            elif r < 0.7:
+                given = rng.rand() < 0.3
+                if given:
+                    n = int(rng.randint(1, 6))
+                    cpos, cval = pts(n), rng.randn(n)
+                    obj.set_condition(cpos[:fd], cval)
+                    lops.append(dict(k="cond", n=n, pos=fbits(cpos)))
+                else:
+                    obj.set_condition()
+                    lops.append(dict(k="cond"))
+                rec_cond()
+                trace.append(["set_condition", cpos[:fd].tolist() if given else "no arguments"])
+            else:
+                given = rng.rand() < 0.5 or obj.pos is None
+                if given:
+                    tp = pts(int(rng.randint(1, 5)))
+                    obj(tp[:fd])
+                    lops.append(dict(k="call", n=int(tp.shape[1]), pos=fbits(tp)))
+                else:
+                    obj()
+                    lops.append(dict(k="call"))
+                recs.append(("call", cap["vecs"][:obj.cond_no, :].copy(), copy.deepcopy(obj.model)))
+                trace.append(["call", tp[:fd].tolist() if given else "stored positions"])
+    finally:
+        KB.calc_field_krige_and_variance_c = orig_c
+    one = lambda v: fbits(np.atleast_1d(np.asarray(v, dtype=float)))
+    cfg = ("-latlon" if latlon else "-metric") + ("-temporal" if temporal else "")
+    case = dict(model=Model.__name__, latlon=latlon, temporal=temporal, dim=dim, var=var, nugget=nug, len_scale=ls, anis=an, angles=ag, history=trace)
+    add(dict(op="ll_krige_hist", latlon=latlon, temporal=temporal, dim=dim, R=f1(m.geo_scale), len_scale=one(ls), anis=one(an), angles=one(ag),
+             n=n0, pos=fbits(cpos0), ops=lops),
+        "krige-object" + cfg, recs, 1e-11, 1.0, case)
+    return [o["k"] + ("" if o["k"] not in ("call", "cond") else (":given" if "pos" in o else ":stored")) for o in lops]
+
+
+def cmp_krige_hist13(recs, r, tol):
+    if isinstance(r, str) or len(r) != len(recs):
+        return f"model answered {r if isinstance(r, str) else len(r)} for {len(recs)} operations"
+    for i, (rec, mo) in enumerate(zip(recs, r)):
+        if rec[0] == "status":
+            if mo != rec[1]:
+                return f"operation {i}: status {rec[1]} (gstools) vs {mo if isinstance(mo, str) else mo[0]} (model)"
+            continue
+        if isinstance(mo, str) or mo[0] != ("kpos" if rec[0] == "cond" else "iso"):
+            return f"operation {i}: model output {mo if isinstance(mo, str) else mo[0]}"
+        d = np.array([unbits(row) for row in mo[2]], dtype=float).reshape(len(mo[2]), -1)
+        want = rec[2].covariance(d)
+        if rec[0] == "cond":
+            want = want + np.diag(np.full(d.shape[0], rec[3]))
+        sc = float(rec[2].var)
+        if not (want.shape == rec[1].shape and np.all(np.abs(want - rec[1]) <= tol * sc * (1.0 + np.abs(want) / sc))):
+            what = "kriging matrix" if rec[0] == "cond" else "kriging right-hand sides"
+            return f"operation {i}: {what} {rec[1].tolist()} (gstools) vs cov(model's distances) {want.tolist()}"
+    return None
+
+
 # ====================================================================== correspondence (tie B)
 def correspondence(ctx):
     import gstools as gs
@@ -570,12 +718,22 @@ def correspondence(ctx):
         for t in range(ctx.scale(260, 2600)):
             for k, _v in hist_case13(rng, gs, add):
                 dist["history op: " + k] = dist.get("history op: " + k, 0) + 1
+        # --- Krige objects between calls: in-place changes / replacement of the model, set_condition() refresh, stored targets
+        for t in range(ctx.scale(120, 1500)):
+            for k in krige_hist_case13(rng, gs, add):
+                dist["krige-object op: " + k] = dist.get("krige-object op: " + k, 0) + 1
     res = run_driver(ops)
     disagreements, samples = [], []
     nontrivial = set()
     for op, (kind, real, tol, scale, case, nt), r in zip(ops, checks, res):
         if isinstance(r, dict) and "error" in r:
             disagreements.append({"what": f"{kind}: model error {r['error']}", "case": case})
+            continue
+        if kind.startswith("krige-object"):
+            why = cmp_krige_hist13(real, r, tol)
+            if why is not None:
+                disagreements.append({"what": f"{kind}: gstools differs from the Lean model (GSV.Model.LatLon.ksRun) along an object history: {why}", "case": case})
+            nontrivial.add((kind, json_key(case)))
             continue
         if kind.startswith("history"):
             why = cmp_hist13(real, r, tol, scale)
@@ -627,7 +785,10 @@ def correspondence(ctx):
                     "distinct = different (kind, input); antipodal haversine pairs and bounding boxes with arcsin argument in (1-1e-6, 1) are discarded; "
                     "histories: live lat-lon / lat-lon+temporal / temporal (1-3 spatial dims) / plain model objects, constructor + 1-8 setters (anis, angles, "
                     "len_scale scalar / list, dim up and down, single-entry re-assignments, rejected values), state (exact) and isometrize / anisometrize "
-                    "(1e-12) read after every step against GSV.Model.LatLon.msRun",
+                    "(1e-12) read after every step against GSV.Model.LatLon.msRun; Krige objects (Simple / Ordinary) on live lat-lon / lat-lon+temporal / "
+                    "metric temporal models: 2-8 operations out of in-place setters / model replacement (same covariance in another geo_scale, or other "
+                    "parameters) / set_condition with or WITHOUT positions / call with or WITHOUT targets; every assembled kriging matrix and every "
+                    "right-hand side against cov(distances of GSV.Model.LatLon.ksRun) (1e-11)",
             "samples": samples, "disagreements": disagreements[:10], "distribution": dist}
 
 
@@ -731,6 +892,205 @@ class RefModel13:
         rot = ref_rot_spatial(sd, self.angles[:sd * (sd - 1) // 2])
         sp = np.diag(1.0 / np.array([1.0] + self.anis[:sd - 1])) @ rot.T @ x[:sd]
         return np.vstack([sp, x[sd:sd + 1] / self.anis[-1]]) if self.temporal else sp
+
+
+
+# ====================================================================== one object, geometry changed, documented refresh (search)
+def _sep_points(rng, latlon, temporal, dim, k, tries=20):
+    """k well separated points of a lat-lon(+time) / metric(+time) model as a (field_dim x k) array"""
+    for _ in range(tries):
+        if latlon:
+            la, lo = np.round(rng.uniform(-85, 85, k), 3), np.round(rng.uniform(-400, 400, k), 3)
+            x = np.vstack([la, lo] + ([np.round(rng.uniform(-10, 10, k), 3)] if temporal else []))
+            u = unit(la, lo)
+            if (angle(u[:, None, :], u[None, :, :]) + np.eye(k) > 2e-2).all():
+                return x
+        else:
+            return np.round(rng.uniform(-5, 5, (dim, k)), 3)
+    return None
+
+
+def _search_refresh13(ctx, rng, gs, report, n_trials):
+    """ONE Krige / CondSRF / SRF object on a live lat-lon / lat-lon + temporal / metric temporal model: evaluate on targets, then change
+    the geometry - time anisotropy in place (anis list / scalar, per-axis len_scale list), spatial anisotropy / rotation of a metric
+    temporal model, scalar len_scale, replace the model by the SAME lat-lon model expressed in another geo_scale (radian <-> degree <-> km
+    <-> arbitrary, length scale and time ratio converted), or by another model - then the documented refresh `set_condition()` WITHOUT
+    positions, then evaluate with given targets or WITHOUT position argument.  Oracles: (a) the plain isotropic model at independently
+    embedded points (sphere of radius geo_scale = chordal / Yadrenko geometry, time / last ratio, spatial S^-1 R^T), (b) a freshly built
+    object with a freshly constructed model that is given conditions and targets, (c) a pure change of units must not change the result."""
+    ev, cfgs, changes, evals = 0, {}, {}, {}
+    for t in range(n_trials):
+        k = rng.rand()
+        latlon, temporal = (True, True) if k < 0.4 else (True, False) if k < 0.65 else (False, True)
+        dim = 3 + int(temporal) if latlon else int(rng.randint(1, 4)) + 1
+        base = ["krige", "krige", "krige", "condsrf", "srf"][t % 5]
+        Model = [gs.Exponential, gs.Gaussian][int(rng.randint(2))] if (base != "krige" or rng.rand() < 0.6) else pick_model(rng, gs)[1]
+        R = gen_radius(rng) if latlon else 1.0
+        ls0 = float(np.round(rng.uniform(0.3, 1.5), 3)) * (R if latlon else 2.0)
+        var = float(np.round(rng.uniform(0.5, 3.0), 2))
+        anis0 = [float(np.round(np.exp(rng.uniform(-1.2, 1.2)), 3)) for _ in range(dim - 1)]
+        if latlon and temporal:
+            # the time ratio relates time units to lengths in geo_scale units
+            anis0[-1] = float(np.round(np.exp(rng.uniform(-1.2, 1.2)) * 10.0 / R, 6))
+        angles0 = [float(np.round(rng.uniform(-3, 3), 3)) for _ in range(noa(dim))]
+
+        def make(ls_, anis_, angles_, R_):
+            kw = dict(latlon=latlon, temporal=temporal, len_scale=ls_, anis=anis_, angles=angles_, var=var)
+            if latlon:
+                kw["geo_scale"] = R_
+            else:
+                kw["dim"] = dim
+            return Model(**kw)
+        try:
+            m = make(ls0, anis0, angles0, R)
+        except ValueError:
+            continue
+        ref = RefModel13(latlon, temporal, dim, [ls0], anis0, angles0)
+        cfg = ("latlon" if latlon else "metric") + ("+temporal" if temporal else "")
+        ncond = int(rng.randint(3, 7))
+        cpos, tgt = _sep_points(rng, latlon, temporal, dim, ncond), _sep_points(rng, latlon, temporal, dim, int(rng.randint(3, 6)))
+        if cpos is None or tgt is None:
+            continue
+        cval = np.round(rng.randn(ncond), 3)
+        seed = int(rng.randint(1, 10 ** 6))
+        Kcls = [gs.krige.Simple, gs.krige.Ordinary][int(rng.randint(2))]
+
+        def build(m_, cp):
+            if base == "srf":
+                return gs.SRF(m_, seed=seed, mode_no=32)
+            k_ = Kcls(m_, cp, cval)
+            return k_ if base == "krige" else gs.CondSRF(k_, seed=seed, mode_no=32)
+
+        def evaluate(o, P=None):
+            f = o(P) if P is not None else o()
+            return np.array([np.ravel(f[0]), np.ravel(f[1])]) if base == "krige" else np.asarray(f, dtype=float).reshape(1, -1)
+        case = dict(object=base, krige=Kcls.__name__ if base != "srf" else None, model=Model.__name__, latlon=latlon, temporal=temporal, dim=dim,
+                    geo_scale=R, len_scale=ls0, anis=anis0, angles=angles0, var=var, cond_pos=cpos.tolist(), cond_val=cval.tolist(), seed=seed, steps=[])
+        try:
+            obj = build(m, cpos)
+            prev = evaluate(obj, tgt)
+            case["steps"].append(["evaluate", tgt.tolist()])
+            stop = False
+            for rnd in range(int(rng.randint(1, 4)) if base == "krige" else 1):
+                opts = ["len"]
+                if temporal:
+                    opts += ["time-anis", "time-anis", "time-anis-scalar", "len-list", "len-list"]
+                if latlon:
+                    opts += ["unit", "unit", "unit"]
+                else:
+                    opts += ["angles", "anis"]
+                opts += ["replace"]
+                ch = str(rng.choice(opts))
+                pure_units = False
+                cur = obj.model
+                if ch == "unit":
+                    # the same covariance in another unit: lengths (len_scale) scale with geo_scale, the time axis keeps its own length
+                    R2 = float(rng.choice([r_ for r_ in RADII if r_ != R] + [float(np.round(rng.uniform(0.1, 1e4), 3))]))
+                    l2 = float(cur.len_scale) * R2 / R
+                    a2 = list(ref.anis)
+                    if temporal:
+                        a2[-1] = float(cur.len_scale) * ref.anis[-1] / l2
+                    obj.model = make(l2, a2, angles0, R2)
+                    ref = RefModel13(latlon, temporal, dim, [l2], a2, angles0)
+                    R = R2
+                    pure_units = True
+                    case["steps"].append(["obj.model = same model in another unit", dict(geo_scale=R2, len_scale=l2, anis=a2)])
+                elif ch == "replace":
+                    l2 = float(np.round(rng.uniform(0.3, 1.5), 3)) * (R if latlon else 2.0)
+                    a2 = [float(np.round(np.exp(rng.uniform(-1.2, 1.2)), 3)) for _ in range(dim - 1)]
+                    if latlon and temporal:
+                        a2[-1] = float(np.round(np.exp(rng.uniform(-1.2, 1.2)) * 10.0 / R, 6))
+                    g2 = [float(np.round(rng.uniform(-3, 3), 3)) for _ in range(noa(dim))]
+                    obj.model = make(l2, a2, g2, R)
+                    ref = RefModel13(latlon, temporal, dim, [l2], a2, g2)
+                    case["steps"].append(["obj.model = other model", dict(len_scale=l2, anis=a2, angles=g2)])
+                else:
+                    f = float(np.round(np.exp(rng.uniform(0.4, 1.3)) ** rng.choice([-1, 1]), 3))      # a clear change (factor 1.5 .. 3.7 either way)
+                    if ch == "time-anis":
+                        op = ("anis", list(ref.anis[:-1]) + [float(ref.anis[-1] * f)])
+                    elif ch == "time-anis-scalar":
+                        op = ("anis", float(ref.anis[-1] * f))
+                    elif ch == "len-list":
+                        L = float(cur.len_scale)
+                        op = ("len", [L * a_ for a_ in [1.0] + list(ref.anis[:-1])] + [L * ref.anis[-1] * f])
+                    elif ch == "len":
+                        op = ("len", float(cur.len_scale) * f)
+                    elif ch == "angles":
+                        op = ("angles", [float(np.round(rng.uniform(-3, 3), 3)) for _ in range(noa(dim))])
+                    else:
+                        op = ("anis", [float(np.round(np.exp(rng.uniform(-1.2, 1.2)), 3)) for _ in range(dim - 2)] + [ref.anis[-1]])
+                    ref.apply(op)
+                    st = apply_op13(obj.model, op)
+                    case["steps"].append([op[0], op[1], st])
+                    if st != "ok":
+                        stop = True          # setter status is the subject of the history block
+                        break
+                changes[cfg + ":" + ch] = changes.get(cfg + ":" + ch, 0) + 1
+                if base != "srf":
+                    (obj if base == "krige" else obj.krige).set_condition()
+                    case["steps"].append(["set_condition()"])
+                given = bool(rng.rand() < 0.5)
+                if given:
+                    tgt = _sep_points(rng, latlon, temporal, dim, int(rng.randint(3, 6)))
+                    if tgt is None:
+                        break
+                got = evaluate(obj, tgt if given else None)
+                case["steps"].append(["evaluate", tgt.tolist() if given else "stored positions"])
+                evals[("given" if given else "stored")] = evals.get(("given" if given else "stored"), 0) + 1
+                # ---- oracles
+                cur = obj.model
+                L = float(cur.len_scale)
+                if not (cur.dim == ref.dim and np.allclose(np.asarray(cur.anis), ref.anis, rtol=1e-12, atol=0) and np.array_equal(np.asarray(cur.angles) + 0.0, np.array(ref.angles) + 0.0)):
+                    stop = True              # state bookkeeping is the subject of the history block
+                    break
+                ic, it = ref.isometrize(cur.geo_scale, cpos), ref.isometrize(cur.geo_scale, tgt)
+                if ic is None:
+                    break
+                iso_m = Model(dim=ref.dim, var=float(cur.var), len_scale=L, **{k_: getattr(cur, k_) for k_ in cur.opt_arg})
+                fresh_m = Model(latlon=latlon, temporal=temporal, var=float(cur.var), len_scale=L, anis=ref.anis, angles=ref.angles,
+                                **(dict(geo_scale=cur.geo_scale) if latlon else dict(dim=dim)), **{k_: getattr(cur, k_) for k_ in cur.opt_arg})
+                iso_o, fresh_o = build(iso_m, ic), build(fresh_m, cpos)
+                tol = 1e-9 * (1 + (R + 30.0) / L) if base != "krige" else 1e-8
+                if base != "srf":
+                    cond = np.linalg.cond((fresh_o if base == "krige" else fresh_o.krige)._krige_mat)
+                    if not np.isfinite(cond) or cond > 1e6:
+                        break
+                    tol = max(tol, 1e-12 * cond * 100 + 1e-8)
+                want_iso, want_fresh = evaluate(iso_o, it), evaluate(fresh_o, tgt)
+                ev += 3
+                key = f"refresh:{base}:{cfg}:" + ("given-positions" if given else "stored-positions")
+                sc = np.sqrt(var) * max(1.0, np.abs(cval).max())
+                if not (got.shape == want_iso.shape and np.allclose(got, want_iso, rtol=tol, atol=tol * sc)):
+                    report(key, f"{base} object on a {cfg} model: after the geometry was changed ({ch}) and the setup refreshed by set_condition(), an evaluation "
+                           + ("with given targets" if given else "WITHOUT position argument") + " differs from the plain isotropic model at the independently embedded "
+                           "points (sphere of radius geo_scale / chordal distance, time divided by the last ratio, spatial S⁻¹Rᵀ): conditions and targets do not "
+                           "share ONE current geometry", dict(case, final=dict(geo_scale=float(cur.geo_scale), len_scale=L, anis=ref.anis, angles=ref.angles)),
+                           max_dev=float(np.max(np.abs(got - want_iso))) if got.shape == want_iso.shape else None)
+                    stop = True
+                    break
+                if not (got.shape == want_fresh.shape and np.allclose(got, want_fresh, rtol=tol, atol=tol * sc)):
+                    report(key + ":vs-fresh-object", f"{base} object on a {cfg} model: after the geometry was changed ({ch}) and the setup refreshed by set_condition(), "
+                           "an evaluation differs from a freshly built object (freshly constructed model with the current public values) given conditions and targets",
+                           dict(case, final=dict(geo_scale=float(cur.geo_scale), len_scale=L, anis=ref.anis, angles=ref.angles)))
+                    stop = True
+                    break
+                if pure_units and not given and base != "srf":
+                    ev += 1
+                    # kriging estimates are invariant; variances too (same covariances).  (SRF: the generator resamples with the new length scale.)
+                    if not np.allclose(got, prev, rtol=tol, atol=tol * sc):
+                        report(f"refresh:{base}:{cfg}:unit-change", f"{base} object on a {cfg} model: replacing the model by the SAME covariance expressed in another "
+                               "geo_scale (len_scale and time ratio converted) + set_condition() changes the result at the stored positions", case,
+                               max_dev=float(np.max(np.abs(got - prev))))
+                        stop = True
+                        break
+                prev = got
+            if stop:
+                continue
+        except Exception as ex:
+            report("refresh:exception", f"{type(ex).__name__}: {ex}", case)
+            continue
+        cfgs[cfg + ":" + base] = cfgs.get(cfg + ":" + base, 0) + 1
+    return ev, cfgs, changes, evals
 
 
 # ====================================================================== search (real API, independent oracles)
@@ -1362,7 +1722,13 @@ def search(ctx, deep=False):
                 report("history:pipeline:" + kind, f"{kind} with a lat-lon / temporal model changed in place differs from the fresh plain isotropic model "
                        "at the independently transformed positions (sphere point / blockdiag(spatial S⁻¹Rᵀ, 1/time ratio))",
                        dict(hcase, final=[ref.dim, ref.L, ref.anis, ref.angles]))
-        hist_summary = f"; {nh} live model objects {h_cfg} walked through setter histories {h_ops} with uses before every change: state vs independent " \
+        # ---------- S16: one object, geometry changed (time anisotropy, unit of the sphere, ...), documented refresh, evaluate again
+        nr = ctx.scale(120, 1500) * (2 if deep else 1)
+        ev_r, r_cfg, r_chg, r_ev = _search_refresh13(ctx, rng, gs, report, nr)
+        ev += ev_r
+        hist_summary = f"; {nr} Krige / CondSRF / SRF objects on live lat-lon / temporal models {r_cfg}: evaluate, change the geometry {r_chg}, set_condition(), evaluate again {r_ev} " \
+                       f"vs the plain isotropic model at independently embedded points, vs a freshly built object, and 'other unit => same result'"
+        hist_summary += f"; {nh} live model objects {h_cfg} walked through setter histories {h_ops} with uses before every change: state vs independent " \
                        f"bookkeeping, isometrize vs sphere point / block-diagonal map, pure time offsets, round trips after every step; pipelines after the history {h_pipe}"
     summary = (f"{ev} checks on the real API: D16 directed case; per random configuration (3-D-valid models x geo_scale in radian/degree/km/random, "
                "lat-lon incl. poles, date line, |lon| up to 725): isometrize on the sphere and round trips; captured kriging matrix vs cov_yadrenko of an "
